@@ -135,6 +135,21 @@ fn gen_prim(thorough: bool, r: &mut Rng, emit: Emit) {
         let len = r.range(100, 5000) as usize;
         emit(&format!("prim roll {}", hexenc(&r.bytes(len))));
     }
+    // one hasher fed a history of chunks through mixed update forms (chunk lengths around the window
+    // size, so that every ring-buffer phase meets every form); value checked after each chunk
+    const FORMS: [&str; 6] = ["u", "i", "b", "a", "A", "n"];
+    for which in ["rollh", "fnvh"] {
+        for i in 0..(if thorough { 3000 } else { 400 }) {
+            let n = r.range(1, 9) as usize;
+            let mut line = format!("prim {}", which);
+            for _ in 0..n {
+                let len = match r.below(8) { 0 => 0, 1 => r.range(1, 6), 2 => 7, 3 => 8, 4 => 13, 5 => r.range(6, 16), 6 => r.range(14, 40), _ => r.range(1, 3) } as usize;
+                let bs = if i % 7 == 0 { vec![*r.pick(&[0u8, 0xff, 0x41]); len] } else { r.bytes(len) };
+                line.push_str(&format!(" {}:{}", r.pick(&FORMS), hexenc(&bs)));
+            }
+            emit(&line);
+        }
+    }
     for w in WORDS.iter() {
         emit(&format!("prim roll {}", hexenc(&w.1)));
     }
@@ -194,6 +209,19 @@ fn gen_bs(thorough: bool, r: &mut Rng, emit: Emit) {
         emit(&format!("bs valid {}", v));
         emit(&format!("bs logvalid {}", v));
     }
+    // neighbours of valid sizes at every bit distance, sums of two powers, and the multiples of the
+    // inverse of 3 modulo 2^32 (a wrapping "exact division" would accept 2^31 = 3 * 2^31 mod 2^32;
+    // round-3 seeded change C20)
+    for k in 0..32u64 {
+        for j in 0..32u64 {
+            for v in [(3u64 << k).wrapping_add(1 << j), (3u64 << k).wrapping_sub(1 << j), (1u64 << k) + (1u64 << j), (0xaaaa_aaabu64 << k).wrapping_mul(1 << j) ] {
+                emit(&format!("bs valid {}", v & 0xffff_ffff));
+            }
+        }
+        emit(&format!("bs logvalid {}", (3u64 << k) & 0xffff_ffff));
+        emit(&format!("bs logvalid {}", (1u64 << k) & 0xffff_ffff));
+        emit(&format!("bs logvalid {}", (0xaaaa_aaabu64 << k) & 0xffff_ffff));
+    }
     for _ in 0..(if thorough { 200000 } else { 3000 }) {
         let v = match r.below(3) { 0 => r.next() as u32 as u64, 1 => (3u64 << r.below(31)) ^ (1u64 << r.below(32)), _ => (r.next() as u32 as u64) / 3 * 3 };
         emit(&format!("bs valid {}", v & 0xffff_ffff));
@@ -245,6 +273,10 @@ fn rand_block_size_field(r: &mut Rng) -> Vec<u8> {
         2 => format!("0{}", 3u64 << r.below(31)).into_bytes(),
         3 => format!("{}", r.below(5000)).into_bytes(),
         4 => format!("{}", 3u64 << r.range(31, 40)).into_bytes(),
+        // values a wrapping / modular validity test could confuse with a valid size
+        10 => format!("{}", 1u64 << r.below(33)).into_bytes(),
+        11 => format!("{}", *r.pick(&[2147483648u64, 2147483649, 2147483647, 4294967295, 4294967294, 4294967293, 1431655765, 2863311531, 1431655766, 715827883])).into_bytes(),
+        12 => format!("{}", ((3u64 << r.below(31)) as i64 + *r.pick(&[-1i64, 1, -3, 3]) * (1i64 << r.below(31))).rem_euclid(1 << 32)).into_bytes(),
         5 => b"4294967296".to_vec(),
         6 => b"99999999999999999999".to_vec(),
         7 => format!("{}", (3u64 << r.below(31)) + 1).into_bytes(),
@@ -315,6 +347,8 @@ fn gen_parse(thorough: bool, r: &mut Rng, emit: Emit) {
         b"".to_vec(), b":".to_vec(), b"3".to_vec(), b"3:".to_vec(), b"3::".to_vec(), b"3::,".to_vec(),
         b"3:a:b".to_vec(), b"3:a:b,c".to_vec(), b"3:a:b:c".to_vec(), b"3:a,b".to_vec(), b"03::".to_vec(),
         b"4::".to_vec(), b"3221225472::".to_vec(), b"6442450944::".to_vec(), b"4294967296::".to_vec(),
+        b"2147483648::".to_vec(), b"2147483648:ABC:DEF".to_vec(), b"1073741824:ABC:DEF".to_vec(), b"4294967295::".to_vec(),
+        b"1431655765::".to_vec(), b"2863311531::".to_vec(), b"1::".to_vec(), b"2::".to_vec(), b"0::".to_vec(),
         b"3:@:".to_vec(), b"3::@".to_vec(), b"x".to_vec(), b"3:\xff:".to_vec(),
     ];
     for t in &fixed { for ty in TYPES { emit(&format!("parse {} {}", ty, hexenc(t))); } }
@@ -800,7 +834,8 @@ fn chunked(r: &mut Rng, data: &[u8], toks: &mut Vec<String>, allow_fin: bool) {
             2 => r.range(1, 700).min(rest as u64) as usize,
             _ => r.range(1, (rest as u64).max(1)) as usize,
         };
-        let form = match r.below(10) { 0 | 1 | 2 | 3 => "u", 4 | 5 => "i", 6 => if n <= 64 { "b" } else { "u" }, 7 => "a", 8 => if n <= 16 { "A" } else { "i" }, _ => "u" };
+        let form = match r.below(12) { 0 | 1 | 2 | 3 => "u", 4 | 5 => "i", 6 => if n <= 64 { "b" } else { "u" }, 7 => "a", 8 => if n <= 16 { "A" } else { "i" },
+            9 => *r.pick(&["j", "k", "K"]), 10 => "n", _ => "u" };
         toks.push(format!("{}:{}", form, hexenc(&data[pos..pos + n])));
         pos += n;
         if allow_fin && r.chance(1, fin_den) { toks.push("f".into()); }
@@ -818,6 +853,25 @@ fn gen_gen(thorough: bool, r: &mut Rng, emit: Emit) {
             let data = rand_payload(r, len);
             let mut toks = vec![];
             if r.chance(1, 2) { toks.push(format!("u:{}", hexenc(&data))); } else { chunked(r, &data, &mut toks, false); }
+            toks.push("f".into());
+            emit(&format!("gen {}", toks.join(" ")));
+        }
+    }
+    // 1b. iterators whose size hint is loose (legal: lower bound 0, upper bound absent / over-estimated /
+    //     usize::MAX), totals at and just below every border so that a full block hash meets a piece
+    //     boundary while an over-estimate would already be past the border (round-3 seeded change C03)
+    for n in 0..=(if thorough { 9 } else { 6 }) {
+        let border = 192usize << n;
+        for rep in 0..(if thorough { 40 } else { 12 }) {
+            let len = border - r.below(if rep % 4 == 0 { 24u64 << n } else { 8u64 << n }) as usize;
+            let data = rand_payload(r, len);
+            let mut toks = vec![];
+            let cutn = r.below(3) as usize;
+            let mut cuts: Vec<usize> = (0..cutn).map(|_| r.below(len as u64 + 1) as usize).collect();
+            cuts.push(0); cuts.push(len); cuts.sort(); cuts.dedup();
+            for w in cuts.windows(2) {
+                toks.push(format!("{}:{}", r.pick(&["j", "k", "K", "k", "K", "i"]), hexenc(&data[w[0]..w[1]])));
+            }
             toks.push("f".into());
             emit(&format!("gen {}", toks.join(" ")));
         }
@@ -1019,6 +1073,30 @@ fn gen_gen(thorough: bool, r: &mut Rng, emit: Emit) {
         let d2 = rand_payload(r, len2);
         match r.below(3) { 0 => toks.push(format!("s:{}", len2)), 1 => toks.push(format!("s:{}", r.range(0, 100000))), _ => {} }
         chunked(r, &d2, &mut toks, true);
+        toks.push("f".into());
+        emit(&format!("gen {}", toks.join(" ")));
+    }
+    // 4b. reset after a first history that leaves little trace: a size declared (any magnitude) with no or
+    //     tiny data (no piece boundary), possibly finalised / refused; after `reset` the second history
+    //     declares nothing (or only at the end) and is large enough to need contexts above whatever fork
+    //     limit the first declaration set (round-3 seeded change C12: reset kept the declared fork limit)
+    for _ in 0..(if thorough { 600 } else { 120 }) {
+        let mut toks: Vec<String> = vec![];
+        let d = match r.below(7) { 0 => 0, 1 => r.range(1, 191), 2 => r.range(192, 400), 3 => 192u64 << r.range(0, 12), 4 => r.range(0, 100000), 5 => 192u64 << 30, _ => r.range(1, 20) };
+        let pre = match r.below(4) { 0 => vec![], 1 => b"0000X".to_vec(), 2 => vec![0u8; r.range(0, 30) as usize], _ => { let pl = r.range(0, 12) as usize; rand_payload(r, pl) } };
+        match r.below(3) {
+            0 => { toks.push(format!("s:{}", d)); chunked(r, &pre, &mut toks, false); }
+            1 => { chunked(r, &pre, &mut toks, false); toks.push(format!("s:{}", d)); }
+            _ => { toks.push(format!("S:{}", d)); }
+        }
+        if r.chance(1, 3) { toks.push("f".into()); }
+        if r.chance(1, 4) { toks.push(format!("s:{}", r.range(0, 1000))); }
+        toks.push("r".into());
+        let len2 = match r.below(3) { 0 => r.range(193, 1500), 1 => r.range(1000, 8000), _ => r.range(193, 40000) } as usize;
+        let d2 = rand_payload(r, len2);
+        let fin2 = r.chance(1, 2);
+        chunked(r, &d2, &mut toks, fin2);
+        if r.chance(1, 4) { toks.push(format!("s:{}", len2)); }
         toks.push("f".into());
         emit(&format!("gen {}", toks.join(" ")));
     }
